@@ -4,6 +4,8 @@ import (
 	"encoding/json"
 	"fmt"
 	"os"
+	"runtime"
+	"runtime/pprof"
 	"sort"
 	"strconv"
 	"strings"
@@ -56,6 +58,10 @@ type WorkerOut struct {
 	CrossObs    map[string]int    `json:"cross_obs"`
 	IdxHashes   map[string]string `json:"idx_hashes,omitempty"`
 	Rule        string            `json:"rule"`
+	// NextIdx: first index this worker did not do; smaller than from+count when it stopped
+	// early because its memory grew past VERIF_MEM_MB (runs that end with parked tasks leak
+	// them); the driver hands the rest to a fresh process
+	NextIdx int `json:"next_idx"`
 }
 
 func envInt(k string, d int) int {
@@ -202,7 +208,22 @@ func TestWorker(t *testing.T) {
 			}
 		}
 	}
+	memLimit := uint64(envInt("VERIF_MEM_MB", 1500)) << 20
+	out.NextIdx = from + count
 	for i := from; i < from+count && time.Now().Before(deadline); i++ {
+		if i > from && (i-from)%8 == 0 {
+			var ms runtime.MemStats
+			runtime.ReadMemStats(&ms)
+			if ms.HeapInuse+ms.StackInuse > memLimit {
+				runtime.GC()
+				runtime.ReadMemStats(&ms)
+				if ms.HeapInuse+ms.StackInuse > memLimit*2/3 {
+					out.NextIdx = i
+					out.Stats["worker_recycled_for_memory"]++
+					break
+				}
+			}
+		}
 		seed := propSeed(base, prop, i)
 		sc := pd.Gen(seed, i, tier)
 		isSweep := false
@@ -235,6 +256,20 @@ func TestWorker(t *testing.T) {
 			sk.SweepStep = k
 			one(&sk, i)
 			out.Stats["sweep_points"]++
+		}
+	}
+	if pf := os.Getenv("VERIF_HEAPPROF"); pf != "" {
+		runtime.GC()
+		var ms runtime.MemStats
+		runtime.ReadMemStats(&ms)
+		fmt.Printf("MEM heap_inuse=%dMB stack_inuse=%dMB sys=%dMB goroutines=%d\n", ms.HeapInuse>>20, ms.StackInuse>>20, ms.Sys>>20, runtime.NumGoroutine())
+		if f, err := os.Create(pf); err == nil {
+			_ = pprof.WriteHeapProfile(f)
+			f.Close()
+		}
+		if f, err := os.Create(pf + ".goroutines"); err == nil {
+			_ = pprof.Lookup("goroutine").WriteTo(f, 1)
+			f.Close()
 		}
 	}
 	out.WallS = time.Since(t0).Seconds()
